@@ -1,6 +1,6 @@
 (* C13 — Decoding is strict and canonical. Property theorems only (proofs in Proofs/CodecCanonP.v). *)
 From JamV Require Import Base.Bytes Model.NatCodec Model.Codec Model.JamTypes
-  Proofs.CodecP Proofs.CodecCanonP Proofs.JamTypesP.
+  Proofs.CodecP Proofs.CodecCanonP Proofs.CodecFastP Proofs.JamTypesP.
 Local Open Scope N_scope.
 
 (* whatever byte string the decoder of a well-formed descriptor accepts is exactly the encoding of the
@@ -49,6 +49,11 @@ Print Assumptions C13_frame_canonical.
 Theorem C13_protocol_descriptors_wf : forall p, pL p < two64 -> forallb wf_desc (all_descs p) = true.
 Proof. exact all_descs_wf. Qed.
 Print Assumptions C13_protocol_descriptors_wf.
+
+(* the extracted decoder run against the Go code is the decoder of these theorems *)
+Theorem C13_extracted_decoder : forall d bs, decf d bs = dec d bs.
+Proof. exact decf_eq. Qed.
+Print Assumptions C13_extracted_decoder.
 
 (* ---- non-vacuity and the concrete rejected shapes ---- *)
 (* accepted: a byte sequence of length 2 followed by junk; rejected: the short read 05 01 02, the
